@@ -55,7 +55,7 @@ def tiered(prop, tier, known, plan, kernels=("poly", "tet", "hex"), modes=MODES,
            seeds=None, asan_plan=None, asan_cfgs=(("d1f1", ALLBU), ("d0f0", ALLBU))):
     """plan[tier][class] = (alpha, depth, alpha2, depth2) or None"""
     js = []
-    dl = 300 if tier == "quick" else 3000
+    dl = 300 if tier == "quick" else 900
     for kernel in kernels:
         for seed in SEEDS[kernel]:
             if seeds is not None and seed not in seeds:
@@ -75,8 +75,10 @@ def tiered(prop, tier, known, plan, kernels=("poly", "tet", "hex"), modes=MODES,
 
 STATE_PLAN = {
     "quick": {"small": (A_FULL, 2, A_R2, 3), "medium": (A_FULL, 1, A_R2, 2), "large": (A_FULL, 1, 0, 0)},
-    "thorough": {"small": (A_FULL, 3, A_R2, 4), "medium": (A_FULL, 2, A_R2, 3), "large": (A_FULL, 1, A_R2, 2)},
+    "thorough": {"small": (A_FULL, 2, A_R2, 4), "medium": (A_FULL, 1, A_R2, 3), "large": (A_FULL, 1, A_R2, 2)},
 }
+# thorough only: one more level of the FULL alphabet (no second phase)
+STATE_PLAN_B = {"quick": {}, "thorough": {"small": (A_FULL, 3, 0, 0), "medium": (A_FULL, 2, 0, 0)}}
 ASAN_PLAN = {
     "quick": {"small": (A_FULL, 1, 0, 0), "medium": (A_FULL, 1, 0, 0), "large": (A_R2, 1, 0, 0)},
     "thorough": {"small": (A_FULL, 2, 0, 0), "medium": (A_FULL, 1, A_R2, 2), "large": (A_R2, 1, 0, 0)},
@@ -84,36 +86,36 @@ ASAN_PLAN = {
 
 
 def jobs_state(prop):
-    return lambda tier, known: tiered(prop, tier, known, STATE_PLAN, asan_plan=ASAN_PLAN)
+    return lambda tier, known: tiered(prop, tier, known, STATE_PLAN, asan_plan=ASAN_PLAN) + tiered(prop, tier, known, STATE_PLAN_B, modes=["d1f1", "d0f0"])
 
 
 TRANS_PLAN = {
     "quick": {"small": (A_FULL, 2, A_R2, 3), "medium": (A_FULL, 1, A_R2, 2), "large": (A_FULL, 1, 0, 0)},
-    "thorough": {"small": (A_FULL, 3, A_R2, 4), "medium": (A_FULL, 2, A_R2, 3), "large": (A_FULL, 1, A_R2, 2)},
+    "thorough": {"small": (A_FULL, 2, A_R2, 4), "medium": (A_FULL, 1, A_R2, 3), "large": (A_FULL, 1, A_R2, 2)},
 }
 
 
 def jobs_c02(tier, known):
     # deletion-centric alphabet; all incidence subsets on a reduced seed list
     plan = {"quick": {"small": (A_DELETION, 3, 0, 0), "medium": (A_DELETION, 1, A_R2NB, 3), "large": (A_DELETION, 1, A_R2NB, 2)},
-            "thorough": {"small": (A_DELETION, 4, 0, 0), "medium": (A_DELETION, 2, A_R2NB, 4), "large": (A_DELETION, 1, A_R2NB, 3)}}
+            "thorough": {"small": (A_DELETION, 3, A_R2NB, 4), "medium": (A_DELETION, 1, A_R2NB, 4), "large": (A_DELETION, 1, A_R2NB, 3)}}
     js = tiered("C02", tier, known, plan, asan_plan=ASAN_PLAN)
     bu_plan = {"quick": {"small": (A_DELETION, 2, 0, 0), "medium": (A_DELETION, 1, A_R2NB, 2), "large": None},
-               "thorough": {"small": (A_DELETION, 3, 0, 0), "medium": (A_DELETION, 1, A_R2NB, 3), "large": (A_DELETION, 1, A_R2NB, 2)}}
+               "thorough": {"small": (A_DELETION, 2, A_R2NB, 3), "medium": (A_DELETION, 1, A_R2NB, 3), "large": (A_DELETION, 1, A_R2NB, 2)}}
     js += tiered("C02", tier, known, bu_plan, busets=[b for b in BUSETS if b != ALLBU])
     return js
 
 
 def jobs_c03(tier, known):
     plan = {"quick": {"small": (A_FULL | A_PROP, 2, A_R2, 3), "medium": (A_FULL | A_PROP, 1, A_R2 | A_PROP, 2), "large": (A_FULL | A_PROP, 1, 0, 0)},
-            "thorough": {"small": (A_FULL | A_PROP, 3, A_R2, 4), "medium": (A_FULL | A_PROP, 2, A_R2 | A_PROP, 3), "large": (A_FULL | A_PROP, 1, A_R2 | A_PROP, 2)}}
+            "thorough": {"small": (A_FULL | A_PROP, 2, A_R2, 4), "medium": (A_FULL | A_PROP, 1, A_R2 | A_PROP, 3), "large": (A_FULL | A_PROP, 1, A_R2 | A_PROP, 2)}}
     return tiered("C03", tier, known, plan, props=1, asan_plan=ASAN_PLAN)
 
 
 def jobs_c17(tier, known):
     A_SW = A_SWAP
     plan = {"quick": {"small": (A_FULL, 1, A_SW, 2), "medium": (A_R2NB | A_ADDV | A_ADDE, 1, A_SW, 2), "large": (A_SW, 1, 0, 0)},
-            "thorough": {"small": (A_FULL, 2, A_SW, 3), "medium": (A_FULL, 1, A_SW | A_DEL, 3), "large": (A_R2NB, 1, A_SW, 2)}}
+            "thorough": {"small": (A_FULL, 2, A_SW, 3), "medium": (A_FULL, 1, A_SW, 2), "large": (A_R2NB, 1, A_SW, 2)}}
     js = tiered("C17", tier, known, plan, props=1, asan_plan={"quick": {"small": (A_SW, 1, 0, 0), "medium": (A_SW, 1, 0, 0), "large": None},
                                                               "thorough": {"small": (A_SW, 2, 0, 0), "medium": (A_SW, 1, 0, 0), "large": (A_SW, 1, 0, 0)}})
     bu_plan = {"quick": {"small": (A_SW, 1, 0, 0), "medium": (A_SW, 1, 0, 0), "large": None},
@@ -124,7 +126,7 @@ def jobs_c17(tier, known):
 
 def jobs_c11(tier, known):
     js = []
-    dl = 300 if tier == "quick" else 3000
+    dl = 300 if tier == "quick" else 900
     caps = "8,16,12,4,3,4,8" if tier == "quick" else "8,16,12,4,4,5,8"
     for kernel in ("poly", "tet", "hex"):
         for seed in SEEDS[kernel]:
@@ -154,13 +156,14 @@ A_PERM = 1 << 17
 
 def jobs_c04(tier, known):
     js = []
-    dl = 300 if tier == "quick" else 3000
+    dl = 300 if tier == "quick" else 900
     marks = 2 if tier == "quick" else 3
     for kernel in ("poly", "tet", "hex"):
         for seed in SEEDS[kernel]:
             cls = seed_class(seed)
             for mode in MODES:
-                busets = [ALLBU, "v0e0f0"] if tier == "quick" else BUSETS
+                # quick: all kinds on, all off, and each kind disabled alone (mixed subsets hide guard mix-ups between the kinds)
+                busets = [ALLBU, "v0e0f0", "v1e1f0", "v1e0f1", "v0e1f1"] if tier == "quick" else BUSETS
                 for bu in busets:
                     m = marks if cls != "large" else marks - 1
                     if tier == "quick" and cls == "large" and (bu != ALLBU or mode in ("d1f0", "d0f1")):
@@ -176,7 +179,7 @@ def jobs_c04(tier, known):
 
 def jobs_c13(tier, known):
     plan = {"quick": {"small": (A_FULL, 2, 0, 0), "medium": (A_FULL, 1, A_R2, 2), "large": (A_R2, 1, 0, 0)},
-            "thorough": {"small": (A_FULL, 2, A_R2, 3), "medium": (A_FULL, 2, 0, 0), "large": (A_FULL, 1, 0, 0)}}
+            "thorough": {"small": (A_FULL, 2, A_R2, 3), "medium": (A_FULL, 1, A_R2, 3), "large": (A_FULL, 1, 0, 0)}}
     asan = {"quick": {"small": (A_FULL, 1, 0, 0), "medium": (A_R2, 1, 0, 0), "large": None},
             "thorough": {"small": (A_FULL, 2, 0, 0), "medium": (A_FULL, 1, 0, 0), "large": (A_R2, 1, 0, 0)}}
     js = tiered("C13", tier, known, plan, props=1, asan_plan=asan)
@@ -193,7 +196,7 @@ def jobs_c15(tier, known):
     full = A_FULL | A_ADDCV | A_COLLAPSE
     r2 = A_R2 | A_ADDCV | A_COLLAPSE
     plan = {"quick": {"small": (full, 2, 0, 0), "medium": (full, 1, r2, 2), "large": (full, 1, 0, 0)},
-            "thorough": {"small": (full, 2, r2, 3), "medium": (full, 2, r2, 3), "large": (full, 1, r2, 2)}}
+            "thorough": {"small": (full, 2, r2, 3), "medium": (full, 1, r2, 3), "large": (full, 1, r2, 2)}}
     asan = {"quick": {"small": (full, 1, 0, 0), "medium": (full, 1, 0, 0), "large": (r2, 1, 0, 0)},
             "thorough": {"small": (full, 2, 0, 0), "medium": (full, 1, r2, 2), "large": (full, 1, 0, 0)}}
     return tiered("C15", tier, known, plan, kernels=("tet",), asan_plan=asan)
@@ -203,12 +206,12 @@ def jobs_c16(tier, known):
     full = A_FULL | A_ADDCV
     r2 = A_R2 | A_ADDCV
     plan = {"quick": {"small": (full, 2, 0, 0), "medium": (full, 1, r2, 2), "large": (r2, 2, 0, 0)},
-            "thorough": {"small": (full, 3, 0, 0), "medium": (full, 2, r2, 3), "large": (full, 1, r2, 3)}}
+            "thorough": {"small": (full, 2, r2, 3), "medium": (full, 1, r2, 3), "large": (r2, 3, 0, 0)}}
     asan = {"quick": {"small": (full, 1, 0, 0), "medium": (full, 1, 0, 0), "large": (r2, 1, 0, 0)},
             "thorough": {"small": (full, 2, 0, 0), "medium": (full, 1, r2, 2), "large": (r2, 2, 0, 0)}}
     js = tiered("C16", tier, known, plan, kernels=("hex",), asan_plan=asan)
     # all permutations of a valid halfface list / all tuples through the topology-checked add_cell (C11 probe alphabet on the hex kernel)
-    dl = 300 if tier == "quick" else 3000
+    dl = 300 if tier == "quick" else 900
     for seed in ("S14", "S15"):
         for mode in ("d1f1", "d0f0"):
             js.append(mesh_job("C16", "hex", seed, cfgstr(mode), A_DEL, 1 if tier == "quick" else 2, A_ADDCV | A_PERM, 1, caps="8,16,12,5,0,6,%d" % (6 if tier == "quick" else 7), bcfg="fast", deadline=dl, known=known))
@@ -220,7 +223,7 @@ def jobs_c12(tier, known):
             "thorough": {"small": (A_FULL, 2, A_R2, 3), "medium": (A_FULL, 1, A_R2, 2), "large": (A_FULL, 1, 0, 0)}}
     js = tiered("C12", tier, known, plan, busets=BUSETS, props=1)
     deep = {"quick": {"small": None, "medium": (A_FULL, 1, A_R2, 2), "large": None},
-            "thorough": {"small": None, "medium": (A_FULL, 2, A_R2, 3), "large": (A_FULL, 1, A_R2, 2)}}
+            "thorough": {"small": None, "medium": (A_FULL, 1, A_R2, 3), "large": (A_FULL, 1, A_R2, 2)}}
     js += tiered("C12", tier, known, deep, busets=["v0e0f0", "v1e0f1", "v1e1f0", "v0e1f1"], modes=["d1f1", "d0f0"], props=1,
                  seeds=["S7", "S11", "S17", "S18a"] if tier == "quick" else None)
     asan = {"quick": {"small": (A_FULL, 1, 0, 0), "medium": (A_FULL, 1, 0, 0), "large": (A_R2, 1, 0, 0)},
@@ -237,7 +240,7 @@ IO_ENV = {"ASAN_OPTIONS": "detect_leaks=0:allocator_may_return_null=1:max_alloca
 def io_jobs(prop, nparts_q, nparts_t):
     def f(tier, known):
         n = nparts_q if tier == "quick" else nparts_t
-        dl = 420 if tier == "quick" else 3000
+        dl = 420 if tier == "quick" else 900
         js = []
         for i in range(n):
             base = ["--prop", prop]
@@ -252,7 +255,7 @@ def io_jobs(prop, nparts_q, nparts_t):
 
 def jobs_c14(tier, known):
     js = []
-    dl = 420 if tier == "quick" else 3000
+    dl = 420 if tier == "quick" else 900
     confs = [(3, 3, 16), (4, 2, 64)] if tier == "quick" else [(5, 2, 128), (4, 3, 64)]
     for depth, names, nparts in confs:
         for i in range(nparts):
@@ -298,7 +301,7 @@ C20_S1 = {"poly": [936, 1388, 884, 1872, 1652, 768, 504, 892, 1304, 1384, 10252,
 def jobs_c20(tier, known):
     js = []
     NM = 16
-    dl = 420 if tier == "quick" else 3000
+    dl = 420 if tier == "quick" else 900
 
     def sj(kernel, threads, bound, qs, dl_):
         base = ["--kernel", kernel, "--threads", str(threads), "--queries", ",".join(map(str, qs))]
